@@ -61,7 +61,18 @@ func childrenOf(pid int) []int {
 	return out
 }
 
+// newSession builds an environment; Build's own ping has a 3 s bound, which a heavily loaded machine can
+// exceed before the init is even scheduled: that is a set-up failure, retried here.
 func newSession(probe string, opt sessOpt) (*session, error) {
+	s, err := newSession1(probe, opt)
+	for try := 0; err != nil && try < 4 && strings.Contains(err.Error(), "not responding to ping"); try++ {
+		time.Sleep(time.Duration(200*(try+1)) * time.Millisecond)
+		s, err = newSession1(probe, opt)
+	}
+	return s, err
+}
+
+func newSession1(probe string, opt sessOpt) (*session, error) {
 	s := &session{stderrDone: make(chan struct{}), skipInit: true}
 	root, err := os.MkdirTemp("", "verif-cont-")
 	if err != nil {
